@@ -194,7 +194,7 @@ proof fn lemma_trk_special(h: LineHdr, v: u16, prev: WRow, s0: Seq<LineInstructi
     requires
         wl_trk(h, v, prev, row.address_offset, s0, s, w), valid_line_hdr(h), wl_row_wf(h, w), wl_row_wf(h, row), wl_ordered(w, row),
         wl_rest_done(w, row), k == wl_op_advance(h, w, row), 0 <= sl < h.line_range, o as int == h.opcode_base + sl + k * h.line_range,
-        line_add(w.line, h.line_base + sl) == row.line,
+        wl_line_add(w.line, h.line_base + sl) == row.line,
     ensures
         forall|base: int| wl_generates(h, base, prev, row, wl_pushed(v, s0, s.push(LineInstruction::Special(o)))),
         line_ops_wf(h, wl_pushed(v, s0, s.push(LineInstruction::Special(o)))),
@@ -221,6 +221,64 @@ proof fn lemma_trk_copy(h: LineHdr, v: u16, prev: WRow, s0: Seq<LineInstruction>
     assert forall|base: int| wl_cond(h, base, prev, row.address_offset) implies #[trigger] line_step(h, wl_regs(base, w), wl_op(v, LineInstruction::Copy))
         == (LineStep { err: false, row: Some(wl_regs(base, row)), next: wl_regs(base, wl_after(row)) }) by { lemma_wl_step_copy(h, base, w, row); }
     lemma_trk_row(h, v, prev, s0, s, w, LineInstruction::Copy, row);
+}
+
+/// the instructions the first half of generate_row appends (registers that are set, not advanced), in its order
+spec fn wl_head(prev_r: LineRow, row: LineRow, s0: Seq<LineInstruction>) -> Seq<LineInstruction> {
+    let a1 = if row.discriminator != 0 { s0.push(LineInstruction::SetDiscriminator(row.discriminator)) } else { s0 };
+    let a2 = if row.basic_block { a1.push(LineInstruction::SetBasicBlock) } else { a1 };
+    let a3 = if row.prologue_end { a2.push(LineInstruction::SetPrologueEnd) } else { a2 };
+    let a4 = if row.epilogue_begin { a3.push(LineInstruction::SetEpilogueBegin) } else { a3 };
+    let a5 = if row.is_statement != prev_r.is_statement { a4.push(LineInstruction::NegateStatement) } else { a4 };
+    let a6 = if row.file != prev_r.file { a5.push(LineInstruction::SetFile(row.file)) } else { a5 };
+    let a7 = if row.column != prev_r.column { a6.push(LineInstruction::SetColumn(row.column)) } else { a6 };
+    if row.isa != prev_r.isa { a7.push(LineInstruction::SetIsa(row.isa)) } else { a7 }
+}
+/// ... after them the machine has every register of the target row except (address, op_index, line)
+proof fn lemma_head(h: LineHdr, v: u16, prev_r: LineRow, row: LineRow, s0: Seq<LineInstruction>)
+    requires wl_prev_wf(h, wl_row(v, prev_r)), wl_row_wf(h, wl_row(v, row))
+    ensures ({
+        let prev = wl_row(v, prev_r);
+        let tgt = wl_row(v, row);
+        wl_trk(h, v, prev, tgt.address_offset, s0, wl_head(prev_r, row, s0),
+            WRow { address_offset: prev.address_offset, op_index: prev.op_index, line: prev.line, ..tgt })
+    })
+{
+    let prev = wl_row(v, prev_r);
+    let tgt = wl_row(v, row);
+    let lim = tgt.address_offset;
+    let w1 = WRow { discriminator: tgt.discriminator, ..prev };
+    let w2 = WRow { basic_block: tgt.basic_block, ..w1 };
+    let w3 = WRow { prologue_end: tgt.prologue_end, ..w2 };
+    let w4 = WRow { epilogue_begin: tgt.epilogue_begin, ..w3 };
+    let w5 = WRow { is_stmt: tgt.is_stmt, ..w4 };
+    let w6 = WRow { file: tgt.file, ..w5 };
+    let w7 = WRow { column: tgt.column, ..w6 };
+    let w8 = WRow { isa: tgt.isa, ..w7 };
+    let a1 = if row.discriminator != 0 { s0.push(LineInstruction::SetDiscriminator(row.discriminator)) } else { s0 };
+    let a2 = if row.basic_block { a1.push(LineInstruction::SetBasicBlock) } else { a1 };
+    let a3 = if row.prologue_end { a2.push(LineInstruction::SetPrologueEnd) } else { a2 };
+    let a4 = if row.epilogue_begin { a3.push(LineInstruction::SetEpilogueBegin) } else { a3 };
+    let a5 = if row.is_statement != prev_r.is_statement { a4.push(LineInstruction::NegateStatement) } else { a4 };
+    let a6 = if row.file != prev_r.file { a5.push(LineInstruction::SetFile(row.file)) } else { a5 };
+    let a7 = if row.column != prev_r.column { a6.push(LineInstruction::SetColumn(row.column)) } else { a6 };
+    lemma_trk_start(h, v, prev, lim, s0);
+    if row.discriminator != 0 { lemma_trk_sets(h, v, prev, lim, s0, s0, prev, LineInstruction::SetDiscriminator(row.discriminator), w1); }
+    assert(wl_trk(h, v, prev, lim, s0, a1, w1));
+    if row.basic_block { lemma_trk_sets(h, v, prev, lim, s0, a1, w1, LineInstruction::SetBasicBlock, w2); }
+    assert(wl_trk(h, v, prev, lim, s0, a2, w2));
+    if row.prologue_end { lemma_trk_sets(h, v, prev, lim, s0, a2, w2, LineInstruction::SetPrologueEnd, w3); }
+    assert(wl_trk(h, v, prev, lim, s0, a3, w3));
+    if row.epilogue_begin { lemma_trk_sets(h, v, prev, lim, s0, a3, w3, LineInstruction::SetEpilogueBegin, w4); }
+    assert(wl_trk(h, v, prev, lim, s0, a4, w4));
+    if row.is_statement != prev_r.is_statement { lemma_trk_sets(h, v, prev, lim, s0, a4, w4, LineInstruction::NegateStatement, w5); }
+    assert(wl_trk(h, v, prev, lim, s0, a5, w5));
+    if row.file != prev_r.file { lemma_trk_sets(h, v, prev, lim, s0, a5, w5, LineInstruction::SetFile(row.file), w6); }
+    assert(wl_trk(h, v, prev, lim, s0, a6, w6));
+    if row.column != prev_r.column { lemma_trk_sets(h, v, prev, lim, s0, a6, w6, LineInstruction::SetColumn(row.column), w7); }
+    assert(wl_trk(h, v, prev, lim, s0, a7, w7));
+    if row.isa != prev_r.isa { lemma_trk_sets(h, v, prev, lim, s0, a7, w7, LineInstruction::SetIsa(row.isa), w8); }
+    assert(w8 == (WRow { address_offset: prev.address_offset, op_index: prev.op_index, line: prev.line, ..tgt }));
 }
 '''
 
@@ -353,7 +411,7 @@ def push_site(it, pat, k, w_from, w_to, instr, guard=None, pre='', fn='generate_
 def lemma_site(it, pat, k, guarded, then=''):
     """push site accounted for by one module-level lemma (quantifier-free preconditions); `then` = ghost updates"""
     a = anchor(it, pat, 'generate_row')
-    return (a, f'let ghost sn{k} = self.instructions@;'), (a, f'proof {{ if fits {{ {guarded} }} {then} }}')
+    return (a, f'let ghost sn{k} = self.instructions@;'), (a, f'proof {{ {guarded} {then} }}')
 
 
 def program_contracts(im, findings):
@@ -461,11 +519,8 @@ def program_contracts(im, findings):
         (r'self\.instructions\s*\.push\(LineInstruction::SetColumn\(self\.row\.column\)\);', 'LineInstruction::SetColumn(self.row.column)'),
         (r'self\.instructions\s*\.push\(LineInstruction::SetIsa\(self\.row\.isa\)\);', 'LineInstruction::SetIsa(self.row.isa)'),
     ]
-    for k, (pat, instr) in enumerate(simple, start=1):
-        ops.append(push_site(im, pat, k, W[k - 1], W[k], instr))
     # DW_LNS_advance_line
-    ops.append(push_site(im, r'self\.instructions\s*\.push\(LineInstruction::AdvanceLine\(line_advance\)\);', 9, 'w8', 'w9', 'LineInstruction::AdvanceLine(line_advance)',
-                         guard='fits', pre='lemma_wl_line_add(prev.line, tgt.line);'))
+    ops.append(push_site(im, r'self\.instructions\s*\.push\(LineInstruction::AdvanceLine\(line_advance\)\);', 9, 'w8', 'w9', 'LineInstruction::AdvanceLine(line_advance)'))
     # DW_LNS_const_add_pc
     ops.append(lemma_site(im, r'self\.instructions\.push\(LineInstruction::ConstAddPc\);', 10,
                           'lemma_trk_const_add_pc(h, v, prev, s0, sn10, wc, tgt);', 'wc = wl_mid(h, wc);'))
@@ -475,10 +530,12 @@ def program_contracts(im, findings):
                           'lemma_trk_advance_pc(h, v, prev, s0, sn11, wc, tgt, op_advance);', f'wc = {W10}; kk = 0;'))
     # the row: a special opcode ...
     ops.append(lemma_site(im, r'self\.instructions\s*\.push\(LineInstruction::Special\(special as u8\)\);', 12,
-                          'lemma_trk_special(h, v, prev, s0, sn12, wc, tgt, special as u8, sl, kk);'))
+                          'if fits { lemma_trk_special(h, v, prev, s0, sn12, wc, tgt, special as u8, sl, kk); } '
+                          'else { reveal(wl_trk); lemma_trk_shape(v, s0, sn12, LineInstruction::Special(special as u8)); }'))
     # ... or DW_LNS_copy
     ops.append(lemma_site(im, r'self\.instructions\.push\(LineInstruction::Copy\);', 13,
-                          'if use_special { lemma_wl_default_special(h, sl, kk); } lemma_trk_copy(h, v, prev, s0, sn13, wc, tgt);'))
+                          'if fits { if use_special { lemma_wl_default_special(h, sl, kk); lemma_wl_line_add_zero(wc.line); } lemma_trk_copy(h, v, prev, s0, sn13, wc, tgt); } '
+                          'else { reveal(wl_trk); lemma_trk_shape(v, s0, sn13, LineInstruction::Copy); }'))
 
     # join points: after each conditional push the bookkeeping and the exec state are restated for the merged state
     # (closed forms: nothing depends on which branch was taken; this keeps the 2^13 paths apart)
@@ -486,24 +543,21 @@ def program_contracts(im, findings):
 
     def join(k):
         row = 'LineRow { ' + ', '.join(RESET[:min(k, 4)]) + ', ..row0 }'
-        return ('proof { assert(self.row == ' + row + '); assert(self.prev_row == prow0 && self.encoding == enc0 && self.line_encoding == le0); '
+        return ('proof { assert(self.row == ' + row + '); assert(self.prev_row == prow0 && self.same_config(&self0) && self.in_sequence); '
                 'assert(' + TRK.format(w=f'w{k}') + '); }')
     JOINS = [(nxt, join(k)) for k, nxt in enumerate([
         'if self.row.basic_block {', 'if self.row.prologue_end {', 'if self.row.epilogue_begin {',
         'if self.row.is_statement != self.prev_row.is_statement {', 'if self.row.file != self.prev_row.file {',
         'if self.row.column != self.prev_row.column {', 'if self.row.isa != self.prev_row.isa {'], start=1)]
     TOP = ('let ghost h = self.lh(); let ghost v = self.encoding.version; let ghost s0 = self.instructions@; '
-           'let ghost row0 = self.row; let ghost prow0 = self.prev_row; let ghost enc0 = self.encoding; let ghost le0 = self.line_encoding; '
+           'let ghost rowR = LineRow { discriminator: 0, basic_block: false, prologue_end: false, epilogue_begin: false, ..self.row }; '
+           'let ghost row0 = self.row; let ghost prow0 = self.prev_row; let ghost self0 = *self; '
            'let ghost prev = self.prev(); let ghost tgt = self.cur(); let ghost lim = tgt.address_offset; '
            'let ghost fits = wl_line_delta_fits(prev.line, tgt.line); '
-           'let ghost w1 = WRow { discriminator: tgt.discriminator, ..prev }; let ghost w2 = WRow { basic_block: tgt.basic_block, ..w1 }; '
-           'let ghost w3 = WRow { prologue_end: tgt.prologue_end, ..w2 }; let ghost w4 = WRow { epilogue_begin: tgt.epilogue_begin, ..w3 }; '
-           'let ghost w5 = WRow { is_stmt: tgt.is_stmt, ..w4 }; let ghost w6 = WRow { file: tgt.file, ..w5 }; '
-           'let ghost w7 = WRow { column: tgt.column, ..w6 }; let ghost w8 = WRow { isa: tgt.isa, ..w7 }; '
-           'let ghost w9 = WRow { line: tgt.line, ..w8 }; '
+           'let ghost w8 = WRow { address_offset: prev.address_offset, op_index: prev.op_index, line: prev.line, ..tgt }; '
            'let ghost mut wc = w8; let ghost mut kk: int = 0; let ghost mut sl: int = 0; '
            'let ghost lb64: i64 = self.line_encoding.line_base as i64; let ghost la64: u64 = self.row.line; let ghost lp64: u64 = self.prev_row.line; '
-           'proof { lemma_trk_start(h, v, prev, lim, s0); }')
+           'proof { }')
     CASTS = ('proof { '
              f'assert(lb64 < 0 ==> (lb64 as u64) as int == lb64 as int + {POW64}) by (bit_vector); '
              'assert(lb64 >= 0 ==> (lb64 as u64) as int == lb64 as int) by (bit_vector); '
@@ -511,10 +565,10 @@ def program_contracts(im, findings):
              f'assert(la64 > 0x7fff_ffff_ffff_ffffu64 ==> (la64 as i64) as int == la64 as int - {POW64}) by (bit_vector); '
              'assert(lp64 <= 0x7fff_ffff_ffff_ffffu64 ==> (lp64 as i64) as int == lp64 as int) by (bit_vector); '
              f'assert(lp64 > 0x7fff_ffff_ffff_ffffu64 ==> (lp64 as i64) as int == lp64 as int - {POW64}) by (bit_vector); '
-             'assert(self.row == LineRow { discriminator: 0, basic_block: false, prologue_end: false, epilogue_begin: false, ..row0 }); '
-             'assert(self.prev_row == prow0 && self.encoding == enc0 && self.line_encoding == le0); '
+             'assert(self.row == rowR); assert(self.prev_row == prow0 && self.same_config(&self0) && self.in_sequence); '
+             'assert(self.instructions@ == wl_head(prow0, row0, s0)); lemma_head(h, v, prow0, row0, s0); '
              'assert(' + TRK.format(w='w8') + '); }')
-    AFTER_DEFAULT = ('proof { '
+    AFTER_DEFAULT = ('let ghost w9 = WRow { line: wl_line_add(prev.line, line_advance as int), ..w8 }; proof { lemma_wl_line_add_range(prev.line, line_advance as int); '
                      f'assert(line_base as int == (if h.line_base < 0 {{ h.line_base + {POW64} }} else {{ h.line_base }})); '
                      'assert(special_default as int == 13 - h.line_base); '
                      'assert(fits ==> line_advance as int == tgt.line - prev.line); '
@@ -523,10 +577,12 @@ def program_contracts(im, findings):
                      'sl = -h.line_base; }')
     # after the line part: either the line is done (w9) or it rides on the special opcode (sl = line_advance - line_base)
     AFTER_LINE = ('proof { '
-                  'if use_special { sl = line_advance as int - h.line_base; wc = w8; } else { wc = w9; } '
+                  'lemma_wl_op_advance_cong(h, prev, tgt, w9, tgt); '
+                  'if use_special { sl = line_advance as int - h.line_base; wc = w8; } else if line_advance != 0 { wc = w9; } else { wc = w8; } '
                   'assert(special as int == 13 + sl && 0 <= sl < h.line_range); '
-                  'assert(fits ==> line_add(wc.line, h.line_base + sl) == tgt.line) by { if fits { lemma_wl_line_add(prev.line, tgt.line); } } '
-                  'assert(fits ==> ' + TRK.format(w='wc') + '); '
+                  'assert(fits ==> wl_line_add(wc.line, h.line_base + sl) == tgt.line) by { if fits { lemma_wl_line_add(prev.line, tgt.line); lemma_wl_line_add_zero(tgt.line); } } '
+                  'assert(' + TRK.format(w='wc') + '); '
+                  'assert(self.row == rowR && self.prev_row == prow0 && self.same_config(&self0) && self.in_sequence); '
                   'lemma_wl_advance_lands(h, 0, wc, tgt, wl_regs(0, wc)); kk = op_advance as int; '
                   'assert(kk == wl_op_advance(h, wc, tgt)); }')
     NO_OVERFLOW = ('proof { if op_advance <= 0xff_ffff_ffff_ffffu64 { assert(op_advance as int * line_range as int <= 0xff_ffff_ffff_ffff * 255) by (nonlinear_arith) '
@@ -541,11 +597,27 @@ def program_contracts(im, findings):
     BEFORE_FINAL = ('proof { if kk == 0 { assert(kk * h.line_range == 0) by (nonlinear_arith) requires kk == 0; } '
                     'assert(use_special ==> special as int == 13 + sl + kk * h.line_range); '
                     'assert(!use_special ==> special as int == 13 + sl && sl == -h.line_base); '
-                    'assert(fits ==> kk == wl_op_advance(h, wc, tgt)); assert(fits ==> wl_rest_done(wc, tgt)); '
-                    'assert(fits ==> wl_row_wf(h, wc) && wl_ordered(wc, tgt)); '
-                    'assert(fits ==> ' + TRK.format(w='wc') + '); '
-                    'assert(fits ==> line_add(wc.line, h.line_base + sl) == tgt.line); '
-                    'assert(!use_special ==> wc.line == tgt.line); }')
+                    'assert(kk == wl_op_advance(h, wc, tgt)); assert(wl_rest_done(wc, tgt)); '
+                    'assert(wl_row_wf(h, wc) && wl_ordered(wc, tgt)); '
+                    'assert(' + TRK.format(w='wc') + '); '
+                    'assert(self.row == rowR && self.prev_row == prow0 && self.same_config(&self0) && self.in_sequence); '
+                    'assert(fits ==> wl_line_add(wc.line, h.line_base + sl) == tgt.line); '
+                    'lemma_wl_line_add_zero(wc.line); assert(fits && !use_special ==> wc.line == tgt.line); '
+                    'assert(kk >= 0); assert(!use_special ==> kk == 0); '
+                    'assert(kk * h.line_range >= 0) by (nonlinear_arith) requires kk >= 0, h.line_range >= 0; '
+                    'assert(use_special ==> 13 <= special <= 255); }')
+    FINAL_POST = ('proof { assert(self.lh() == h && self.encoding.version == v); '
+                  'assert(self.ops() == wl_ops(v, sf)); '
+                  'assert(wl_ops(v, s0).len() == s0.len()); '
+                  'assert(self.ops().skip(s0.len() as int) == wl_pushed(v, s0, sf)); '
+                  'assert(self.prev() == wl_after(tgt) && self.cur() == wl_after(tgt)); '
+                  'assert(wl_prev_wf(h, wl_after(tgt))); '
+                  'assert(self.wf()); }')
+    FINAL_JOIN = ('let ghost sf = self.instructions@; proof { '
+                  'assert(self.row == rowR && self.prev_row == prow0 && self.same_config(&self0) && self.in_sequence); '
+                  'assert(wl_ops(v, sf).take(s0.len() as int) == wl_ops(v, s0) && wl_ops(v, sf).len() > s0.len()); '
+                  'assert(fits ==> line_ops_wf(h, wl_pushed(v, s0, sf))); '
+                  'assert(fits ==> forall|base: int| wl_generates(h, base, prev, tgt, wl_pushed(v, s0, sf))); }')
     im.splice('generate_row', requires=[
         f'[C13:pre-header] wl_hdr_ok({H})'] + ([] if findings else [f'[C13:pre-line-range-127] {H}.line_range <= 127']) + [
         f'2 <= {H}.version <= 5', 'old(self).wf()',
@@ -564,15 +636,16 @@ def program_contracts(im, findings):
         # the same for ANY pair of u64 line numbers.  FAILS: a difference outside i64 is computed modulo 2^64 (F-wline-2)
         f'[C13:generate-row-any-line][C12:line-regen] forall|base: int| wl_generates({H}, base, old(self).prev(), old(self).cur(), {PUSHED})',
     ] if findings else []),
-        before=[('self.in_sequence = true;', TOP), ('let line_base = i64::from(', CASTS)] + JOINS + [
+        before=[('self.in_sequence = true;', TOP), ('let line_base = i64::from(', CASTS),
                 ('let op_advance = self.op_advance();', 'proof { lemma_wl_op_advance_cong(h, prev, self.cur(), prev, tgt); }')] + [b for b, _ in ops] + [
             ('if op_advance != 0 {', AFTER_LINE),
             ('let (special_op_advance, const_add_pc) =', NO_OVERFLOW),
             ('let op_range = (255 - special_base) / line_range;', BEFORE_RANGE),
             ('let special_op = special_op_advance * line_range;', BEFORE_SPECIAL_OP),
-            ('if use_special && special != special_default {', BEFORE_FINAL)],
-        after=[('let op_advance = self.op_advance();', 'proof { lemma_wl_op_advance_cong(h, prev, tgt, w8, tgt); lemma_wl_op_advance_cong(h, prev, tgt, w9, tgt); }'),
-               ('let mut use_special = false;', AFTER_DEFAULT)] + [a for _, a in ops],
+            ('if use_special && special != special_default {', BEFORE_FINAL),
+            ('self.prev_row = self.row;', FINAL_JOIN)],
+        after=[('let op_advance = self.op_advance();', 'proof { lemma_wl_op_advance_cong(h, prev, tgt, w8, tgt); }'),
+               ('let mut use_special = false;', AFTER_DEFAULT)] + [a for _, a in ops] + [('self.prev_row = self.row;', FINAL_POST)],
         canary=True)
 
 
